@@ -31,8 +31,8 @@ Section SeekRef.
         else
           let tgt : Z := match w with
                          | SeekStart => off
-                         | SeekCurrent => (off + Z.of_N (s_off k))%Z
-                         | SeekEnd => (off + Z.of_N (len content))%Z
+                         | SeekCurrent => wrap64 (off + Z.of_N (s_off k))      (* int64, as io.Seeker *)
+                         | SeekEnd => wrap64 (off + Z.of_N (len content))
                          end in
           if (tgt <? 0)%Z then (k, [], SErr)
           else
